@@ -201,6 +201,18 @@ example : coalesce [{ min := ⟨0, 0, false⟩, max := ⟨18446744073709551615, 
     { min := ⟨18446744073709551615, 0, false⟩, max := ⟨18446744073709551615, 0, false⟩ }]
     = [{ min := ⟨0, 0, false⟩, max := ⟨18446744073709551615, 0, false⟩ }] := by decide
 
+/-- `sort.Sort` is not stable, but parts that tie under `YangRange.Less` have equal mantissas: whatever
+order ties end up in, the same intervals are in the same places.  (`coalesce_denotes` asks only for
+"sorted by lower bound", so the denotation and shape of the result do not depend on the order of
+ties at all; what can differ is the sign of a zero bound in the printed result, `-0` vs `0`.) -/
+theorem sort_ties_denote_equal (f : Nat) (hf : f ≤ 18) (a b : YRange) (ha : PartOk f a) (hb : PartOk f b)
+    (h1 : rangeLess a b = false) (h2 : rangeLess b a = false) : absP a = absP b :=
+  rangeLess_tie hf ha hb h1 h2
+
+/-- satisfiable: `-0..5` and `0..5` tie -/
+example : rangeLess ⟨⟨0, 0, true⟩, ⟨5, 0, false⟩⟩ ⟨⟨0, 0, false⟩, ⟨5, 0, false⟩⟩ = false ∧
+    rangeLess ⟨⟨0, 0, false⟩, ⟨5, 0, false⟩⟩ ⟨⟨0, 0, true⟩, ⟨5, 0, false⟩⟩ = false := ⟨by rfl, by rfl⟩
+
 /-- `Sort` then `coalesce` of any list of in-order parts: the normal form of the written set. -/
 theorem sort_coalesce_denotes (f : Nat) (hf : f ≤ 18) (r : YangRange) (hu : Uniform f r) (hv : AllValid (abs r)) :
     SDC (abs (coalesce (sort r))) ∧ SetEq (abs (coalesce (sort r))) (abs r) := by
@@ -244,6 +256,29 @@ example :
     SDC (abs r) ∧ contains r [⟨n 12, n 15⟩, ⟨n 30, n 30⟩] = true ∧ contains r [⟨n 20, n 30⟩] = false := by
   exact ⟨(sdcB_iff _).mp (by decide), by rfl, by rfl⟩
 
+/-- Observation (not part of the property; the Go comment says as much: "Both range lists should be in
+order and non-adjacent (coalesced)"): without the shape hypothesis `Contains` is not inclusion —
+`1..2|3..4` (adjacent, not coalesced) does not "contain" `2..3`.  `parseChildRanges` only ever calls
+it on coalesced lists (`parse_denotes`). -/
+theorem contains_iff_fails_without_sdc :
+    ¬ (∀ r s : YangRange, Uniform 0 r → Uniform 0 s → (contains r s = true ↔ (r = [] ∨ Within (abs s) (abs r)))) := by
+  intro h
+  let n (v : Nat) : Number := ⟨v, 0, false⟩
+  have hu : ∀ (l : YangRange), (∀ p ∈ l, p.min.fd = 0 ∧ p.min.value < W ∧ p.max.fd = 0 ∧ p.max.value < W) → Uniform 0 l :=
+    fun l hl p hp => ⟨⟨(hl p hp).1, (hl p hp).2.1⟩, ⟨(hl p hp).2.2.1, (hl p hp).2.2.2⟩⟩
+  have := (h [⟨n 1, n 2⟩, ⟨n 3, n 4⟩] [⟨n 2, n 3⟩] (hu _ (by decide)) (hu _ (by decide))).mpr
+    (Or.inr ((subsetB_iff _ _).mp (by decide)))
+  have hc : contains [⟨n 1, n 2⟩, ⟨n 3, n 4⟩] [⟨n 2, n 3⟩] = false := by decide
+  rw [hc] at this
+  cases this
+
+/-- Observation (not part of the property): `Validate` compares every later part with the first part
+only, so on its own it misses an overlap further down (`0|2..3|3` passes).  Unreachable from
+`parseChildRanges`, which validates what `coalesce` returned (`validate_sdc`). -/
+theorem validate_first_only_observation :
+    validate [⟨⟨0, 0, false⟩, ⟨0, 0, false⟩⟩, ⟨⟨2, 0, false⟩, ⟨3, 0, false⟩⟩, ⟨⟨3, 0, false⟩, ⟨3, 0, false⟩⟩] = none := by
+  rfl
+
 /-! ### chain_narrows -/
 
 /-- the sets a derivation chain can start from: the eight integer types, decimal64 at 1…18
@@ -258,6 +293,20 @@ inductive IsBase : Bool → Nat → YangRange → Prop
   | uint32 : IsBase false 0 uint32Range
   | uint64 : IsBase false 0 uint64Range
   | dec (f : Nat) (h1 : 1 ≤ f) (h2 : f ≤ 18) : IsBase true f (decimalBase f)
+
+/-- The model's built-in ranges are what `mustParseRangesInt` computes from the literals in the Go
+source (`Int8Range = mustParseRangesInt("-128..127")` …); the runner also compares them with the Go
+variables. -/
+theorem builtin_parse :
+    parseRangesInt [45, 49, 50, 56, 46, 46, 49, 50, 55] = .ok int8Range ∧
+    parseRangesInt [45, 51, 50, 55, 54, 56, 46, 46, 51, 50, 55, 54, 55] = .ok int16Range ∧
+    parseRangesInt [45, 50, 49, 52, 55, 52, 56, 51, 54, 52, 56, 46, 46, 50, 49, 52, 55, 52, 56, 51, 54, 52, 55] = .ok int32Range ∧
+    parseRangesInt [45, 57, 50, 50, 51, 51, 55, 50, 48, 51, 54, 56, 53, 52, 55, 55, 53, 56, 48, 56, 46, 46, 57, 50, 50, 51, 51, 55, 50, 48, 51, 54, 56, 53, 52, 55, 55, 53, 56, 48, 55] = .ok int64Range ∧
+    parseRangesInt [48, 46, 46, 50, 53, 53] = .ok uint8Range ∧
+    parseRangesInt [48, 46, 46, 54, 53, 53, 51, 53] = .ok uint16Range ∧
+    parseRangesInt [48, 46, 46, 52, 50, 57, 52, 57, 54, 55, 50, 57, 53] = .ok uint32Range ∧
+    parseRangesInt [48, 46, 46, 49, 56, 52, 52, 54, 55, 52, 52, 48, 55, 51, 55, 48, 57, 53, 53, 49, 54, 49, 53] = .ok uint64Range := by
+  refine ⟨?_, ?_, ?_, ?_, ?_, ?_, ?_, ?_⟩ <;> rfl
 
 /-- every base is a legitimate, non-empty parent at its scale -/
 theorem base_ok (dec : Bool) (f : Nat) (b : YangRange) (hb : IsBase dec f b) :
